@@ -181,7 +181,34 @@ def formula_rule(ctx, rule="R07.5"):
     ctx.check(ok, rule, CS + "::CondSRF.get_scaling", "scale = sqrt(kriging variance share / model variance); nugget share scaled separately", "scaling")
 
 
+def deletion_rule(ctx, rule="R07.7"):
+    """Invalidation = Field.delete_fields -> __delitem__: it must remove EVERY stored result.  A loop that walks the live name list
+    while its body removes entries from that list skips every second name (stale `krige_var` survives set_condition)."""
+    from .. import alias
+
+    an = alias.Analyzer(ctx.prog)
+    an.run()
+    sites = 0
+    for fq, sm in sorted(an.summ.items()):
+        for lab, where in sm.szmut.items():
+            if lab == "F:_field_names" and where.startswith(fq + ":"):
+                sites += 1
+    ctx.floor(rule, "statements resizing the list of stored result names", sites, 2)
+    hz = {k: v for k, v in an.iter_hazards.items() if "_field_names" in v}
+    for (fq, stmt), detail in sorted(hz.items()):
+        ctx.violation(rule, fq, "stored results are removed from the name list while a loop iterates that list (every second entry is skipped, stale results survive invalidation): `%s` %s" % (stmt, detail), "iter-resize:" + stmt)
+    other = {k: v for k, v in an.iter_hazards.items() if k not in hz}
+    for (fq, stmt), detail in sorted(other.items()):
+        ctx.note(rule, "container resized while iterated (not a stored-result list): %s `%s` %s" % (fq, stmt, detail))
+    if not hz:
+        ctx.ok(rule, FB + "::Field.__delitem__/delete_fields", "no call path iterates the live list of stored result names while removing entries from it (%d resizing statements, interprocedural may-alias)" % sites)
+    dl = ctx.prog.func(FB, "Field.delete_fields")
+    ok = any(isinstance(n, ast.Delete) and len(n.targets) == 1 and isinstance(n.targets[0], ast.Subscript) and ast.unparse(n.targets[0].value) == "self" for n in ast.walk(dl))
+    ctx.check(ok, rule, FB + "::Field.delete_fields", "delete_fields removes through `del self[...]` (the one place that drops both the attribute and its name)", "del-self")
+
+
 def run(ctx):
+    deletion_rule(ctx)
     writer_rule(ctx)
     reuse_rule(ctx)
     detector_rule(ctx)
